@@ -116,7 +116,7 @@ func buildDerivedTyped(types string, n int, f func([]int) int, iv []reactive.Var
 // inputs (holding <inits>) is parked inside its m-th computation (m = 1: the initial computation of the first
 // subscription) until the writer - started at that moment - has made its writes and returned.  A write to an input
 // that is not subscribed yet cannot block, so the schedule is then fully forced; a write to a subscribed input waits for
-// the constructor, and the pause ends after a short while.
+// the constructor, and the pause ends after 5 ms.
 func stressDVZero(r *hx.Run, f []string) {
 	if len(f) != 7 {
 		r.Line(strings.Join(f, " "), "bad-op")
@@ -141,7 +141,7 @@ func stressDVZero(r *hx.Run, f []string) {
 				forced = false
 			}
 		}
-		wait := 30 * time.Millisecond
+		wait := 5 * time.Millisecond
 		if forced {
 			wait = 20 * time.Second
 		}
